@@ -61,7 +61,8 @@ STAR_PATTERNS = [[1], [1], [3], [1, 1], [1, 1], [2, 2], [2, 1, 1], [2, 1, 1], [1
 def gen_eps_hit_case(rng):
     """Corpora whose column-normalised values are dyadic and hit epsilon exactly, before and after every EM iteration:
     disjoint stars -- context token u_k is preceded by the row tokens of pattern k with the given multiplicities, every
-    row token belongs to one star -- so each occurrence has a single window slot (EM share exactly 1), the column of
+    row token belongs to one star (multiset kind: also as one basket [r, u] per document) -- so each occurrence has a
+    single window slot per block (EM share exactly 1, or 1/2 + 1/2), the column of
     u_k holds m_j / sum(m) and (in a 'before' block) the column of a row token holds 1.0.  epsilon is one of those
     values, or the float32 neighbour 2^-20 below / above it."""
     kind = rng.choice(["token", "token", "timed", "ngram", "multi"])
@@ -84,8 +85,12 @@ def gen_eps_hit_case(rng):
         docs = [[r] * size + [u] for r, u in pairs]
     elif kind == "timed":
         docs = [[[r, rng.choice([0, 8])], [u, 16 + rng.choice([0, 8, 24])]] for r, u in pairs]
-    else:
+    elif rng.random() < 0.5:
         docs = [[[r], [u]] for r, u in pairs]
+    else:
+        # one multiset per document (a basket): the other elements of the own multiset are the contexts (distance 0),
+        # in every orientation; the column of a row token then holds 1.0
+        docs = [[[r, u]] for r, u in pairs]
     L = 2 + size - 1
     kw = {"window_radii": rng.choice([1, 1, 2, L, L + 1, 32768, 2 ** 31 - 1]),
           "window_orientations": rng.choice(["after", "after", "before", "directional"]),
